@@ -2,8 +2,10 @@ package main
 
 import (
 	"context"
+	"encoding/binary"
 	"encoding/json"
 	"fmt"
+	"math"
 	"os"
 	"runtime"
 	"runtime/debug"
@@ -180,6 +182,20 @@ func errDigest(err error) string {
 // c01ContentMutants: truncations, extensions and offset windows of a content (no byte mutants: C02 / C13 flip bits).
 func c01ContentMutants(b []byte, emit func([]byte)) {
 	c14MutantsOf(b, len(b) <= c01WriteOut, false, emit)
+	// the trailing 8 bytes as a little-endian integer at its boundaries: in a post-merge header
+	// item this is the proof's slot (the last field of the last container), which selects the
+	// accumulator entry the proof is checked against
+	if len(b) >= 8 {
+		off := len(b) - 8
+		old := binary.LittleEndian.Uint64(b[off:])
+		for _, v := range []uint64{0, 1, 8191, 8192, old % 8192, old - 8192, old + 8192, old - 1, old + 1, 1<<63 - 1, 1 << 63, math.MaxUint64 - 8191, math.MaxUint64} {
+			if v != old {
+				m := append([]byte{}, b...)
+				binary.LittleEndian.PutUint64(m[off:], v)
+				emit(m)
+			}
+		}
+	}
 }
 
 // c01BodyMutants: framing mutants of a uTP stream body: everything for a small body; for a
@@ -192,6 +208,25 @@ func c01BodyMutants(b []byte, emit func([]byte)) {
 	}
 	c14MutantsOf(b, false, false, emit)
 	c14MutantsOf(b[:16], true, true, func(p []byte) { emit(append(append([]byte{}, p...), b[16:]...)) })
+}
+
+// c01VarintShapes: every byte string of 1..6 bytes whose bytes carry a septet of {00,01,0f,10,7b,7f}
+// and are continuation bytes except possibly the last (ffffffff0f = 2^32-1, fbffffff0f = 2^32-5,
+// 8080808010 = 2^32, six-byte and unterminated prefixes).
+func c01VarintShapes(emit func([]byte)) {
+	septs := []byte{0x00, 0x01, 0x0f, 0x10, 0x7b, 0x7f}
+	var shape func(prefix []byte, remaining int)
+	shape = func(prefix []byte, remaining int) {
+		for _, s := range septs {
+			emit(append(append([]byte{}, prefix...), s))
+			if remaining > 1 {
+				shape(append(append([]byte{}, prefix...), s|0x80), remaining-1)
+			} else {
+				emit(append(append([]byte{}, prefix...), s|0x80))
+			}
+		}
+	}
+	shape(nil, 6)
 }
 
 func nth(stream func(func([]byte)), ord int) (out []byte) {
@@ -537,6 +572,18 @@ func (w *c01World) streamBodies(net, store string) {
 				continue
 			}
 			proto.Seed, proto.Mut = "", 0
+			if i == 0 {
+				// every LEB128 prefix shape of 1..6 bytes over boundary septets (values up to and beyond
+				// 2^32, with and without a dangling continuation bit): alone, followed by one byte,
+				// and after a well-formed item
+				c01VarintShapes(func(b []byte) {
+					for _, in := range [][]byte{b, append(append([]byte{}, b...), 0xaa), append([]byte{0x01, 0xaa}, b...)} {
+						c := proto
+						c.Seed, c.Own, c.In = "length-prefix shape", true, append(hexb{}, in...)
+						w.do(&c, nil)
+					}
+				})
+			}
 			c01Shorts(c01ShortLen, func(b []byte) {
 				// the framing decoder sees the body only: one context decides a body it refuses
 				// or splits into another number of items than were offered
